@@ -173,7 +173,7 @@ package entry
 //@   ensures result.LogID == e.LogID && result.Payload == e.Payload && result.V == e.V && result.Key == e.Key && result.Sig == e.Sig && result.Identity == e.Identity && result.Hash == e.Hash
 //@   ensures e.Clock == nil ==> result.Clock == nil
 //@   ensures e.Clock != nil ==> result.Clock != nil && fresh(result.Clock) && result.Clock.Time == e.Clock.Time && result.Clock.ID == e.Clock.ID
-//@   ensures distinctCids(result.Next) && distinctCids(result.Refs)
+//@   ensures distinctCids(result.Next) && distinctCids(result.Refs) && len(result.Next) <= len(e.Next) && len(result.Refs) <= len(e.Refs)
 //@   ensures distinctCids(e.Next) ==> sameCids(result.Next, e.Next)
 //@   ensures distinctCids(e.Refs) ==> sameCids(result.Refs, e.Refs)
 //@   ensures forall j int :: 0 <= j && j < len(e.Next) ==> exists i int :: 0 <= i && i < len(result.Next) && result.Next[i] == e.Next[j]
@@ -212,7 +212,7 @@ package entry
 //@   requires e == nil || e.Clock != nil
 
 // ---- entry.go: creating and writing entries ----
-//@ define sameEntryCore(a iface.IPFSLogEntry, b iface.IPFSLogEntry) = a.LogID == b.LogID && a.Payload == b.Payload && a.V == b.V && a.Key == b.Key && a.Sig == b.Sig && a.Identity == b.Identity && a.Hash == b.Hash && a.Clock.Time == b.Clock.Time && a.Clock.ID == b.Clock.ID && (distinctCids(b.Next) ==> sameCids(a.Next, b.Next)) && (distinctCids(b.Refs) ==> sameCids(a.Refs, b.Refs))
+//@ define sameEntryCore(a iface.IPFSLogEntry, b iface.IPFSLogEntry) = a.LogID == b.LogID && a.Payload == b.Payload && a.V == b.V && a.Key == b.Key && a.Sig == b.Sig && a.Identity == b.Identity && a.Hash == b.Hash && a.Clock.Time == b.Clock.Time && a.Clock.ID == b.Clock.ID && (distinctCids(b.Next) ==> sameCids(a.Next, b.Next)) && (distinctCids(b.Refs) ==> sameCids(a.Refs, b.Refs)) && len(a.Next) <= len(b.Next) && len(a.Refs) <= len(b.Refs)
 //@ func Normalize
 //@   requires validEntry(e)
 //@   ensures result != nil && fresh(result) && result.Clock != nil && fresh(result.Clock)
@@ -236,4 +236,5 @@ package entry
 //@   ensures [created-entry-keeps-clock] err == nil && data.Clock != nil && len(data.Clock.ID) > 0 ==> result0.Clock.Time == data.Clock.Time && result0.Clock.ID == data.Clock.ID
 //@   ensures [created-entry-keeps-next] err == nil && distinctCids(data.Next) ==> sameCids(result0.Next, data.Next)
 //@   ensures [created-entry-keeps-refs] err == nil && distinctCids(data.Refs) ==> sameCids(result0.Refs, data.Refs)
+//@   ensures [created-entry-has-no-more-refs] err == nil ==> len(result0.Refs) <= len(data.Refs) && len(result0.Next) <= len(data.Next)
 //@   ensures [created-entry-is-signed-by-identity] err == nil ==> result0.Key == identity.PublicKey
